@@ -91,6 +91,11 @@ def backend_view(sim, tracked, sched, accounting=True):
             out[name] = "unknown"
             continue
         ph = j["phase"]
+        if sched == "slurm" and j.get("in_queue") and j.get("code") in ("CG", "R", "PD"):
+            # still listed by the live queue (e.g. COMPLETING) although accounting already knows the end:
+            # the live queue wins
+            out[name] = {"CG": "running", "R": "running", "PD": "submitted"}[j["code"]]
+            continue
         if ph == "pending":
             out[name] = "submitted"
         elif ph == "running":
